@@ -72,11 +72,11 @@ func (a c08Addr) String() string  { return string(a) }
 func init() {
 	register(&Spec{
 		ID: "C08", World: "BYTES",
-		New:        func() dsim.World { return &c08World{} },
+		New:        func() dsim.World { return &c08Switch{} },
 		Cfg:        dsim.Config{MaxChaosSteps: 150, MaxStableSteps: 6000, Horizon: defaultCfg.Horizon},
 		Real:       []string{"util/rwc.PacketConn (WriteTo, rxPump, ReadFrom)", "stream/packet.Session (SendMsg, RecvMsg)"},
 		Stub:       []string{"the underlying io.ReadWriteCloser is a simulator-owned byte stream (dsim.ByteDir) with driver-chosen chunking"},
-		FaultKinds: []string{"fault:chunking", "fault:raw-zero-prefix", "fault:raw-overlimit-prefix", "fault:raw-huge-prefix", "fault:oversize-send", "fault:eof-mid-frame", "fault:reset", "fault:short-buffer", "fault:slow-reader"},
+		FaultKinds: []string{"fault:chunking", "fault:raw-zero-prefix", "fault:raw-overlimit-prefix", "fault:raw-huge-prefix", "fault:oversize-send", "fault:eof-mid-frame", "fault:reset", "fault:short-buffer", "fault:slow-reader", "fault:flow-controlled-write"},
 	})
 }
 
